@@ -1264,6 +1264,17 @@ class _Fold(ast.NodeTransformer):
                                                    ctx=ast.Load()), n)
         return n
 
+    def visit_Expr(self, n):
+        self.generic_visit(n)
+        c = n.value
+        # setattr(x, 'name', v) as a statement is the assignment x.name = v
+        if isinstance(c, ast.Call) and isinstance(c.func, ast.Name) and c.func.id == 'setattr' and \
+                len(c.args) == 3 and not c.keywords and isinstance(c.args[1], ast.Constant) and \
+                isinstance(c.args[1].value, str) and c.args[1].value.isidentifier():
+            tgt = ast.Attribute(value=c.args[0], attr=c.args[1].value, ctx=ast.Store())
+            return ast.copy_location(ast.Assign(targets=[ast.copy_location(tgt, c)], value=c.args[2]), n)
+        return n
+
     def visit_UnaryOp(self, n):
         self.generic_visit(n)
         if isinstance(n.op, ast.Not) and isinstance(n.operand, ast.Constant):
